@@ -820,6 +820,13 @@ example : ∃ cs, respondQ readCfg liveReq (fun _ => 600) (fun _ => true) liveQ 
   | ok cs =>
     exact ⟨cs, rfl, respondQ_good readCfg_wf (Queue.after_qinv (Queue.qinv_new 30) _) (by decide) h⟩
 
+/-- the hypotheses of `after_evolves` are satisfiable; here the buffer `[1, 2, 3]` evolves into `[3, 4, 5]` -/
+example : Evolves (liveQ.view (fun _ => 600) (fun _ => true))
+    ((liveQ.after [.push 0 10 none, .push 0 10 none]).view (fun _ => 600) (fun _ => true)) :=
+  after_evolves _ _ (Queue.after_qinv (Queue.qinv_new 30) _) _
+    (by intro op hop; simp only [List.mem_cons, List.not_mem_nil, or_false, or_self] at hop; exact ⟨0, 10, none, hop⟩)
+    (by decide)
+
 set_option maxRecDepth 16000 in
 /-- **why termination needs the finite-schedule assumption**: a producer that pushes one more matching
 event per round trip keeps a Read alive for as long as it goes on — here 6 scheduled changes, 8 messages
